@@ -1,5 +1,5 @@
 (** C01 - Every task gets exactly one terminal outcome, reported once, in order. *)
-From HQ Require Import Base.Prelude Cluster.Types Cluster.Core Cluster.Reactor Cluster.Worker Cluster.Server Cluster.Sys Cluster.Monitors Cluster.ProofsJob Cluster.ProofsCore Cluster.ProofsMore Cluster.ProofsTerminal.
+From HQ Require Import Base.Prelude Cluster.Types Cluster.Core Cluster.Reactor Cluster.Worker Cluster.Server Cluster.Sys Cluster.Monitors Cluster.ProofsJob Cluster.ProofsCore Cluster.ProofsMore Cluster.ProofsTerminal Cluster.ProofsStep Cluster.ProofsFinal.
 From Coq Require Import ZArith.
 Local Open Scope N_scope.
 
@@ -22,6 +22,18 @@ Theorem C01_cancel_abort_only_from_active : forall target site ids, (target = JC
   forall t, In t ids -> jt_find (j_tasks j) (snd t) = Some JW \/ jt_find (j_tasks j) (snd t) = Some JR.
 Proof. exact mark_only_from_active. Qed.
 
+(** An outcome is final, for the WHOLE system model: along any history of operations (client
+    requests incl. submits and forgets, message deliveries in any order, scheduling rounds with any
+    solver answer, worker losses, task ends, timers), once an outcome is recorded for a task every
+    later state shows the same outcome - or the task's whole job has been forgotten, and a forgotten
+    job id is never used again. *)
+Theorem C01_outcome_final_system : forall ops1 ops2 reserve maxfill s1 o1 s2 o2 t v,
+  run (init_sys reserve maxfill) ops1 = Ok (s1, o1) ->
+  run s1 ops2 = Ok (s2, o2) ->
+  task_state (s1, []) t = Some v -> terminal v ->
+  task_state (s2, []) t = Some v \/ find_job (h_jobs (s_hq s2)) (fst t) = None.
+Proof. exact outcome_final. Qed.
+
 (** An outcome is final: once the job layer has recorded an outcome for a task, no client request
     and no task-progress callback - in any order, also ones the scheduler core would never send -
     changes it (the job id counter being ahead of all job ids, as it is after every history). *)
@@ -39,6 +51,7 @@ Theorem C01_forget_only_terminated : forall s jid s',
   exists j, find_job (hq_jobs s) jid = Some j /\ j_open j = false /\ cnt (j_tasks j) JW = 0 /\ cnt (j_tasks j) JR = 0.
 Proof. exact forget_only_terminated. Qed.
 
+Print Assumptions C01_outcome_final_system.
 Print Assumptions C01_outcome_final.
 Print Assumptions C01_forget_only_terminated.
 Print Assumptions C01_finished_only_from_running.
